@@ -4,12 +4,64 @@ The numbers (core operators, geometry matrices, inputs, expected outputs) all co
 turns them into cuqi.geometry / cuqi.model objects.  Function values are C-order vectors in the spec; `to_fun` /
 `from_fun` convert between that vector and the shape the real geometry uses (images for Image2D / Continuous2D).
 """
+import functools
 import warnings
 from fractions import Fraction
 
 import numpy as np
 
 from .tlc import MachineryError
+
+
+# ----------------------------------------------------------------------------------------------------------------------
+# construction of a model is a step of its own (round 9, specs/ModelGeomConstruct.tla): every configuration the replay builds
+# is WELL-FORMED by the specification, so a constructor of the library that refuses it is a violation of the property
+# ("every linear model the library constructs or accepts", "for every domain and range geometry the model is given"),
+# not a failure of the machinery.
+# ----------------------------------------------------------------------------------------------------------------------
+class ConstructionRefused(Exception):
+    """The library refused to construct a model / test problem that the specification calls well-formed."""
+
+    def __init__(self, key, err):
+        super().__init__("%s: %r" % (key, err))
+        self.key, self.err = key, err
+
+
+def construct(key, f):
+    """Run the ONE library constructor call `f`; a library exception becomes ConstructionRefused(key, exception)."""
+    try:
+        with warnings.catch_warnings():
+            warnings.simplefilter("ignore")
+            return f()
+    except MachineryError:
+        raise
+    except Exception as e:  # noqa: BLE001 - any refusal of the real constructor is data
+        raise ConstructionRefused(key, e) from e
+
+
+def report_refusal(ctx, case, prefix, r):
+    ctx.mismatch("%s/%s/construction_refused" % (prefix, r.key), case,
+                 "the library refused to construct a model the specification calls well-formed (matrix / function pair acting on the FUNCTION "
+                 "values of the given geometries; invariant WellFormedAccepted of ModelGeomConstruct.tla)", "accepted", repr(r.err))
+
+
+def refusal_is_violation(prefix):
+    """Decorator for per-case replay functions f(ctx, case, ...): a ConstructionRefused raised anywhere inside is reported as the
+    mismatch <prefix>/<key>/construction_refused (exit 1) and the case ends."""
+    def deco(f):
+        @functools.wraps(f)
+        def g(ctx, case, *a, **k):
+            try:
+                return f(ctx, case, *a, **k)
+            except ConstructionRefused as r:
+                report_refusal(ctx, case, prefix, r)
+                return None
+        return g
+    return deco
+
+
+def mkey(mk, dom, rng):
+    return "mk=%s/dom=%s/rng=%s" % (mk, gkey(dom.g), gkey(rng.g))
 
 
 # ----------------------------------------------------------------------------------------------------------------------
@@ -234,10 +286,13 @@ def build_linear_model(mk, F, dom, rng):
     import cuqi
     import scipy.sparse as sp
     F = np.asarray(F, dtype=float)
+    key = mkey(mk, dom, rng)
     if mk == "dense":
-        return cuqi.model.LinearModel(F.copy(), range_geometry=rng.obj, domain_geometry=dom.obj)
+        M = F.copy()
+        return construct(key, lambda: cuqi.model.LinearModel(M, range_geometry=rng.obj, domain_geometry=dom.obj))
     if mk == "sparse":
-        return cuqi.model.LinearModel(sp.csc_matrix(F), range_geometry=rng.obj, domain_geometry=dom.obj)
+        M = sp.csc_matrix(F)
+        return construct(key, lambda: cuqi.model.LinearModel(M, range_geometry=rng.obj, domain_geometry=dom.obj))
     if mk == "func":
         def fwd(X):
             return (F @ np.asarray(X).ravel()).reshape(rng.fun_shape)
@@ -245,7 +300,7 @@ def build_linear_model(mk, F, dom, rng):
         def adj(Y):
             return (F.T @ np.asarray(Y).ravel()).reshape(dom.fun_shape)
 
-        return cuqi.model.LinearModel(fwd, adj, range_geometry=rng.obj, domain_geometry=dom.obj)
+        return construct(key, lambda: cuqi.model.LinearModel(fwd, adj, range_geometry=rng.obj, domain_geometry=dom.obj))
     raise MachineryError("unknown linear model kind %r" % mk)
 
 
@@ -305,24 +360,27 @@ def build_general_model(case, dom, rng):
         u = np.asarray(u, dtype=float).ravel()
         return A + 2 * B * u[None, :]
 
+    key = mkey(mk, dom, rng)
     if mk == "gen_nograd":
-        return cuqi.model.Model(lambda x: fv(x), rng.obj, dom.obj)
+        return construct(key, lambda: cuqi.model.Model(lambda x: fv(x), rng.obj, dom.obj))
     if mk == "gen_jac":
-        return cuqi.model.Model(lambda x: fv(x), rng.obj, dom.obj, jacobian=lambda x: jac(x))
+        return construct(key, lambda: cuqi.model.Model(lambda x: fv(x), rng.obj, dom.obj, jacobian=lambda x: jac(x)))
     if mk == "gen_grad":
         def grad(direction, wrt):
             return (np.asarray(direction, dtype=float).ravel() @ jac(wrt)).reshape(dom.fun_shape)
-        return cuqi.model.Model(lambda x: fv(x), rng.obj, dom.obj, gradient=grad)
+        return construct(key, lambda: cuqi.model.Model(lambda x: fv(x), rng.obj, dom.obj, gradient=grad))
     if mk == "lin_dense":
-        return cuqi.model.LinearModel(A.copy(), range_geometry=rng.obj, domain_geometry=dom.obj)
+        M = A.copy()
+        return construct(key, lambda: cuqi.model.LinearModel(M, range_geometry=rng.obj, domain_geometry=dom.obj))
     if mk == "lin_sparse":
-        return cuqi.model.LinearModel(sp.csc_matrix(A), range_geometry=rng.obj, domain_geometry=dom.obj)
+        M = sp.csc_matrix(A)
+        return construct(key, lambda: cuqi.model.LinearModel(M, range_geometry=rng.obj, domain_geometry=dom.obj))
     if mk == "lin_func":
-        return cuqi.model.LinearModel(lambda x: (A @ np.asarray(x).ravel()).reshape(rng.fun_shape),
-                                      lambda y: (A.T @ np.asarray(y).ravel()).reshape(dom.fun_shape),
-                                      range_geometry=rng.obj, domain_geometry=dom.obj)
+        return construct(key, lambda: cuqi.model.LinearModel(lambda x: (A @ np.asarray(x).ravel()).reshape(rng.fun_shape),
+                                                             lambda y: (A.T @ np.asarray(y).ravel()).reshape(dom.fun_shape),
+                                                             range_geometry=rng.obj, domain_geometry=dom.obj))
     if mk in ("pde_grad", "pde_jac"):
         WithG, WithJ = _pde_classes()
         pde = (WithG if mk == "pde_grad" else WithJ)(ivec(case["pde_b"]))
-        return cuqi.model.PDEModel(pde, rng.obj, dom.obj)
+        return construct(key, lambda: cuqi.model.PDEModel(pde, rng.obj, dom.obj))
     raise MachineryError("unknown model kind %r" % mk)
